@@ -5,7 +5,7 @@ from checks import _prog
 PROP = 'C08'
 OWNED = {'label_value'}
 PROFILE = S.profile(w_labelval=14, w_li=6, w_data=5, w_align=2, w_calltail=2, w_group=2, w_branch=2, w_upper=4,
-                    w_sys=0, n_labels=(2, 7), far=True)
+                    w_sys=0, n_labels=(2, 7), far=True, p_big_align=0.15)
 N = {'quick': 2400, 'thorough': 240000}
 
 
